@@ -394,6 +394,9 @@ func c07Check(ci any, o *core.Obs) {
 			{"uniform scale", transM(t1, t2).mul(rotM(a2)).mul(refl).mul(scaleM(k, k)), false, false, true},
 			{"non-uniform scale", transM(t1, t2).mul(rotM(a2)).mul(scaleM(k, k2)), false, false, false},
 			{"shear", transM(t1, t2).mul(rotM(a2)).mul(shearM(sh, 0)), false, false, false},
+			// rows of equal length with orthogonal columns, and the transpose of that: neither is a similarity
+			{"scale then 45 degrees", transM(t1, t2).mul(rotM(45 + 90*float64(int(math.Abs(a2))%4))).mul(scaleM(k, k2)), false, false, false},
+			{"45 degrees then scale", transM(t1, t2).mul(scaleM(k, k2)).mul(rotM(45 + 90*float64(int(math.Abs(a2))%4))), false, false, false},
 		}
 		for _, rc := range recipes {
 			lm := canvas.Matrix{{rc.m[0], rc.m[1], rc.m[2]}, {rc.m[3], rc.m[4], rc.m[5]}}
